@@ -33,7 +33,7 @@ func RepoFrame(skip int) string {
 var closureRe = regexp.MustCompile(`(\.func\d+)+(\.\d+)*$`)
 
 var numRe = regexp.MustCompile(`-?\d+`)
-var hexRe = regexp.MustCompile(`0x[0-9a-fA-F]+`)
+var hexRe = regexp.MustCompile(`0x[0-9a-fA-F]+|\b[0-9a-fA-F]{8,}\b`)
 
 // MsgClass normalises a panic/error message into a class: numbers and
 // addresses are replaced so the key does not depend on raw values.
